@@ -7,7 +7,11 @@ import (
 	"fmt"
 	"io"
 	"net"
+	"sync"
 	"time"
+
+	libnet "github.com/fatedier/golib/net"
+	"golang.org/x/net/websocket"
 
 	v1 "github.com/fatedier/frp/pkg/config/v1"
 	"github.com/fatedier/frp/pkg/msg"
@@ -71,11 +75,39 @@ func msgBytes(m msg.Message) []byte {
 	return b.Bytes()
 }
 
+// wsDial: a raw websocket client on frps' websocket path; what is written afterwards are the first
+// bytes the server-side sniff sees on the websocket listener.
+func wsDial(s *hx.Server) (net.Conn, error) {
+	addr := fmt.Sprintf("%s:%d", s.Addr, s.Port)
+	raw, err := net.DialTimeout("tcp", addr, 2*time.Second)
+	if err != nil {
+		return nil, err
+	}
+	wc, err := websocket.NewConfig("ws://"+addr+netpkg.FrpWebsocketPath, "http://"+addr)
+	if err != nil {
+		raw.Close()
+		return nil, err
+	}
+	_ = raw.SetDeadline(time.Now().Add(3 * time.Second))
+	ws, err := websocket.NewClient(wc, raw)
+	if err != nil {
+		raw.Close()
+		return nil, err
+	}
+	_ = raw.SetDeadline(time.Time{})
+	ws.PayloadType = websocket.BinaryFrame
+	return ws, nil
+}
+
 func runSniff(cfg *hx.RunCfg) error {
 	hx.Quiet()
 	cf := &hx.CaseFile{Imports: caseImports, Typ: "case", Tail: caseTail +
 		"Definition NSYSTLS := Eval vm_compute in count_if (fun c => match c with CSniffSys _ _ 0 => true | _ => false end) cases.\nPrint NSYSTLS.\n" +
 		"Definition NSYSPROTO := Eval vm_compute in count_if (fun c => match c with CSniffSys _ _ 1 => true | _ => false end) cases.\nPrint NSYSPROTO.\n" +
+		"Definition NWSTLS := Eval vm_compute in count_if (fun c => match c with CSniffSysL 1 _ _ 0 => true | _ => false end) cases.\nPrint NWSTLS.\n" +
+		"Definition NWSPROTO := Eval vm_compute in count_if (fun c => match c with CSniffSysL 1 false _ 1 => true | _ => false end) cases.\nPrint NWSPROTO.\n" +
+		"Definition NKCPTLS := Eval vm_compute in count_if (fun c => match c with CSniffSysL 2 _ _ 0 => true | _ => false end) cases.\nPrint NKCPTLS.\n" +
+		"Definition NKCPPROTO := Eval vm_compute in count_if (fun c => match c with CSniffSysL 2 false _ 1 => true | _ => false end) cases.\nPrint NKCPPROTO.\n" +
 		"Definition NFNREJECT := Eval vm_compute in count_if (fun c => match c with CSniffFn true _ false _ true _ => true | _ => false end) cases.\nPrint NFNREJECT.\n"}
 	implFail := []map[string]string{}
 	dist := map[string]int{}
@@ -171,11 +203,12 @@ func runSniff(cfg *hx.RunCfg) error {
 		return fmt.Errorf("could not capture a ClientHello")
 	}
 	for _, force := range []bool{false, true} {
-		s, err := hx.StartServer(addrServer, func(c *v1.ServerConfig) { c.Transport.TLS.Force = force })
+		kcpPort := hx.FreeUDPPort(addrServer)
+		s, err := hx.StartServer(addrServer, func(c *v1.ServerConfig) { c.Transport.TLS.Force = force; c.KCPBindPort = kcpPort })
 		if err != nil {
 			return err
 		}
-		for b := 0; b < 256; b++ {
+		probe := func(b int) []byte {
 			var payload []byte
 			ts := time.Now().Unix()
 			switch byte(b) {
@@ -193,15 +226,13 @@ func runSniff(cfg *hx.RunCfg) error {
 				payload = frame(byte(b), "{}")
 				payload = append(payload, []byte("PADDINGPADDING")...)
 			}
+			return payload
+		}
+		classify := func(conn net.Conn, payload []byte, wait time.Duration) int {
 			cls := 3
-			conn, err := s.Dial()
-			if err != nil {
-				s.Close()
-				return err
-			}
 			_, _ = conn.Write(payload)
 			one := make([]byte, 1)
-			_ = conn.SetReadDeadline(time.Now().Add(3 * time.Second))
+			_ = conn.SetReadDeadline(time.Now().Add(wait))
 			n, rerr := conn.Read(one)
 			switch {
 			case n == 1 && one[0] == 0x16:
@@ -217,6 +248,16 @@ func runSniff(cfg *hx.RunCfg) error {
 					cls = 2
 				}
 			}
+			return cls
+		}
+		for b := 0; b < 256; b++ {
+			payload := probe(b)
+			conn, err := s.Dial()
+			if err != nil {
+				s.Close()
+				return err
+			}
+			cls := classify(conn, payload, 3*time.Second)
 			conn.Close()
 			cf.Cases = append(cf.Cases, fmt.Sprintf("CSniffSys %s %d %d", hx.Bool(force), b, cls))
 			dist[fmt.Sprintf("sys force=%v cls=%d", force, cls)]++
@@ -226,6 +267,55 @@ func runSniff(cfg *hx.RunCfg) error {
 					"case": fmt.Sprintf("first byte %d (0x%02x) followed by %d bytes of a well-formed plain message to a forcing frps", b, b, len(payload)-1)})
 			}
 		}
+		// ---- the same sweep through the websocket listener (raw websocket client, then the bytes) ----
+		for b := 0; b < 256; b++ {
+			payload := probe(b)
+			ws, err := wsDial(s)
+			if err != nil {
+				s.Close()
+				return fmt.Errorf("websocket dial: %v", err)
+			}
+			cls := classify(ws, payload, 3*time.Second)
+			ws.Close()
+			cf.Cases = append(cf.Cases, fmt.Sprintf("CSniffSysL 1 %s %d %d", hx.Bool(force), b, cls))
+			dist[fmt.Sprintf("sys-websocket force=%v cls=%d", force, cls)]++
+			if force && cls == 1 {
+				implFail = append(implFail, map[string]string{"key": "forced-server-answered-plain-peer:websocket",
+					"what": fmt.Sprintf("a server with transport.tls.force=true interpreted a protocol message from a websocket peer without TLS (first byte %d) and answered it", b),
+					"case": fmt.Sprintf("websocket upgrade on %s, then first byte %d (0x%02x) followed by %d bytes of a well-formed plain message, to a forcing frps", netpkg.FrpWebsocketPath, b, b, len(payload)-1)})
+			}
+		}
+		// ---- and through the kcp listener (a close is not observable on kcp: all 256 probes wait together) ----
+		kcls := make([]int, 256)
+		var wg sync.WaitGroup
+		for b := 0; b < 256; b++ {
+			b := b
+			wg.Add(1)
+			go func() {
+				defer wg.Done()
+				kcls[b] = 3
+				conn, err := libnet.Dial(net.JoinHostPort(s.Addr, fmt.Sprint(s.Cfg.KCPBindPort)), libnet.WithProtocol("kcp"))
+				if err != nil {
+					return
+				}
+				defer conn.Close()
+				kcls[b] = classify(conn, probe(b), 1500*time.Millisecond)
+			}()
+		}
+		wg.Wait()
+		for b := 0; b < 256; b++ {
+			cls := kcls[b]
+			if cls == 3 {
+				cls = 2
+			}
+			cf.Cases = append(cf.Cases, fmt.Sprintf("CSniffSysL 2 %s %d %d", hx.Bool(force), b, cls))
+			dist[fmt.Sprintf("sys-kcp force=%v cls=%d", force, cls)]++
+			if force && cls == 1 {
+				implFail = append(implFail, map[string]string{"key": "forced-server-answered-plain-peer:kcp",
+					"what": fmt.Sprintf("a server with transport.tls.force=true interpreted a protocol message from a kcp peer without TLS (first byte %d) and answered it", b),
+					"case": fmt.Sprintf("kcp, first byte %d (0x%02x) followed by a well-formed plain message, to a forcing frps", b, b)})
+			}
+		}
 		s.Close()
 	}
 	if err := cf.Write(cfg.Out); err != nil {
@@ -233,7 +323,7 @@ func runSniff(cfg *hx.RunCfg) error {
 	}
 	cfg.St["cases"] = len(cf.Cases)
 	cfg.St["distinct_nontrivial"] = len(cf.Cases) - 2
-	cfg.St["samples"] = []string{cf.Cases[0x16], cf.Cases[0x17], cf.Cases[256+1+int('o')], cf.Cases[len(cf.Cases)-256+int('o')]}
+	cfg.St["samples"] = []string{cf.Cases[0x16], cf.Cases[0x17], cf.Cases[256+1+int('o')], cf.Cases[len(cf.Cases)-512+int('o')], cf.Cases[len(cf.Cases)-256+int('o')]}
 	cfg.St["distribution"] = dist
 	cfg.St["impl_failures"] = implFail
 	return nil
